@@ -15,7 +15,7 @@ THEOREMS = [
     "Mtv.Client.every_content_message_acked_no_faults",
     "Mtv.Client.ack_enabled",
 ]
-RULE = ('scenarios with 1..10 (thorough 24) concurrent callers and content-related server traffic (updates, new_session_created, unknown objects, truncated bodies, containers of them); the frames arriving at the peer are checked: msg_id multiple of four, derived from the current time, strictly increasing in arrival order, odd seq_no for requests and even for acks, seq_no non-decreasing, every odd-seq server message (alone or in a container) named by a later msgs_ack. distinct = distinct scenarios')
+RULE = ('scenarios with 1..10 (thorough 24) concurrent callers and content-related server traffic (updates, new_session_created, unknown objects, truncated bodies, containers of them); the frames arriving at the peer are checked: msg_id multiple of four, derived from the current time, strictly increasing in arrival order, odd seq_no for requests and even for acks, seq_no non-decreasing, every odd-seq server message (alone or in a container) named by a later msgs_ack. The peer checks every client message byte for byte (a request is exactly ping#7abe77ec ping_id, an acknowledgement exactly msgs_ack with a non-empty Vector<long> and nothing behind it), also for requests and acknowledgements encoded while another write is in progress. distinct = distinct scenarios')
 
 
 def run(ctx):
